@@ -78,6 +78,12 @@ package edwards25519
 //@   ensures [fresh] fresh(result)
 //@   ensures [copy] samepoint(result, generator)
 
+// validity of the auxiliary representations (all conditional: a caller that does not need it proves nothing)
+//   projP2 (X:Y:Z), x = X/Z, y = Y/Z
+//@ define validP2(p) = !cong(lv(p.Z), 0, P) && cong((lv(p.Y)*lv(p.Y) - lv(p.X)*lv(p.X)) * lv(p.Z)*lv(p.Z), lv(p.Z)*lv(p.Z)*lv(p.Z)*lv(p.Z) + lv(d)*lv(p.X)*lv(p.X)*lv(p.Y)*lv(p.Y), P)
+//   projP1xP1 ((X:Z),(Y:T)), x = X/Z, y = Y/T
+//@ define validP1(p) = !cong(lv(p.Z), 0, P) && !cong(lv(p.T), 0, P) && cong(lv(p.Y)*lv(p.Y)*lv(p.Z)*lv(p.Z) - lv(p.X)*lv(p.X)*lv(p.T)*lv(p.T), lv(p.Z)*lv(p.Z)*lv(p.T)*lv(p.T) + lv(d)*lv(p.X)*lv(p.X)*lv(p.Y)*lv(p.Y), P)
+
 // ---------------------------------------------------------------- conversions (definition contracts)
 
 //@ func (*projP2).FromP1xP1(v, p)
@@ -89,12 +95,14 @@ package edwards25519
 //@   ensures [X] cong(lv(v.X), lv(p.X) * lv(p.T), P)
 //@   ensures [Y] cong(lv(v.Y), lv(p.Y) * lv(p.Z), P)
 //@   ensures [Z] cong(lv(v.Z), lv(p.Z) * lv(p.T), P)
+//@   ensures [valid] validP1(p) ==> validP2(v)
 
 //@ func (*projP2).FromP3(v, p)
 //@   mode ring
 //@   assigns *v
 //@   ensures [receiver] result == v
 //@   ensures [copy] eqlimbs(v.X, p.x) && eqlimbs(v.Y, p.y) && eqlimbs(v.Z, p.z)
+//@   ensures [valid] validc(p) ==> validP2(v)
 
 //@ func (*Point).fromP1xP1(v, p)
 //@   mode ring
@@ -106,6 +114,7 @@ package edwards25519
 //@   ensures [y] cong(lv(v.y), lv(p.Y) * lv(p.Z), P)
 //@   ensures [z] cong(lv(v.z), lv(p.Z) * lv(p.T), P)
 //@   ensures [t] cong(lv(v.t), lv(p.X) * lv(p.Y), P)
+//@   ensures [valid] validP1(p) ==> validc(v)
 
 //@ func (*Point).fromP2(v, p)
 //@   mode ring
@@ -117,6 +126,7 @@ package edwards25519
 //@   ensures [y] cong(lv(v.y), lv(p.Y) * lv(p.Z), P)
 //@   ensures [z] cong(lv(v.z), lv(p.Z) * lv(p.Z), P)
 //@   ensures [t] cong(lv(v.t), lv(p.X) * lv(p.Y), P)
+//@   ensures [valid] validP2(p) ==> validc(v)
 
 //@ func (*projCached).FromP3(v, p)
 //@   mode ring
@@ -185,9 +195,13 @@ package edwards25519
 //@   ensures [Z] cong(lv(v.Z), 2 * lv(p.z) - lv(p.t) * lv(q.T2d), P)
 //@   ensures [T] cong(lv(v.T), 2 * lv(p.z) + lv(p.t) * lv(q.T2d), P)
 
+// M4 for P = Q in P2 coordinates: the denominators 1 +- d x^2 y^2 of the doubling do not vanish
+//@ define m4dbl(p) = validP2(p) ==> (!cong(lv(p.Z)*lv(p.Z)*lv(p.Z)*lv(p.Z) + lv(d)*lv(p.X)*lv(p.X)*lv(p.Y)*lv(p.Y), 0, P) && !cong(lv(p.Z)*lv(p.Z)*lv(p.Z)*lv(p.Z) - lv(d)*lv(p.X)*lv(p.X)*lv(p.Y)*lv(p.Y), 0, P))
+
 //@ func (*projP1xP1).Double(v, p)
 //@   mode ring
 //@   requires [inv] inv(p.X) && inv(p.Y) && inv(p.Z)
+//@   assume [M4] m4dbl(p)
 //@   assigns *v
 //@   ensures [receiver] result == v
 //@   ensures [inv] tight(v.X) && tight(v.Y) && tight(v.Z) && tight(v.T)
@@ -195,6 +209,9 @@ package edwards25519
 //@   ensures [Y] cong(lv(v.Y), lv(p.Y) * lv(p.Y) + lv(p.X) * lv(p.X), P)
 //@   ensures [Z] cong(lv(v.Z), lv(p.Y) * lv(p.Y) - lv(p.X) * lv(p.X), P)
 //@   ensures [T] cong(lv(v.T), 2 * lv(p.Z) * lv(p.Z) - lv(p.Y) * lv(p.Y) + lv(p.X) * lv(p.X), P)
+//@   ensures [valid] validP2(p) ==> validP1(v)
+//@   ensures [lawx] validP2(p) ==> cong(lv(v.X) * (lv(p.Z)*lv(p.Z)*lv(p.Z)*lv(p.Z) + lv(d)*lv(p.X)*lv(p.X)*lv(p.Y)*lv(p.Y)), lv(v.Z) * 2*lv(p.X)*lv(p.Y)*lv(p.Z)*lv(p.Z), P)
+//@   ensures [lawy] validP2(p) ==> cong(lv(v.Y) * (lv(p.Z)*lv(p.Z)*lv(p.Z)*lv(p.Z) - lv(d)*lv(p.X)*lv(p.X)*lv(p.Y)*lv(p.Y)), lv(v.T) * (lv(p.Y)*lv(p.Y) + lv(p.X)*lv(p.X))*lv(p.Z)*lv(p.Z), P)
 
 // ---------------------------------------------------------------- the group law on Points (property C02)
 //
@@ -267,3 +284,170 @@ package edwards25519
 //@   assigns nothing
 //@   ensures [bit] 0 <= result && result <= 1
 //@   ensures [iff] result == 1 <==> (cong(lv(v.x) * lv(u.z), lv(u.x) * lv(v.z), P) && cong(lv(v.y) * lv(u.z), lv(u.y) * lv(v.z), P))
+
+// ---------------------------------------------------------------- constant-time selection helpers
+
+//@ func (*projCached).Select(v, a, b, cond)
+//@   mode ring
+//@   requires [cond] cond == 0 || cond == 1
+//@   casesplit cond in 0..2
+//@   assigns *v
+//@   ensures [receiver] result == v
+//@   ensures [one] cond == 1 ==> eqlimbs(v.YplusX, a.YplusX) && eqlimbs(v.YminusX, a.YminusX) && eqlimbs(v.Z, a.Z) && eqlimbs(v.T2d, a.T2d)
+//@   ensures [zero] cond == 0 ==> eqlimbs(v.YplusX, b.YplusX) && eqlimbs(v.YminusX, b.YminusX) && eqlimbs(v.Z, b.Z) && eqlimbs(v.T2d, b.T2d)
+
+//@ func (*affineCached).Select(v, a, b, cond)
+//@   mode ring
+//@   requires [cond] cond == 0 || cond == 1
+//@   casesplit cond in 0..2
+//@   assigns *v
+//@   ensures [receiver] result == v
+//@   ensures [one] cond == 1 ==> eqlimbs(v.YplusX, a.YplusX) && eqlimbs(v.YminusX, a.YminusX) && eqlimbs(v.T2d, a.T2d)
+//@   ensures [zero] cond == 0 ==> eqlimbs(v.YplusX, b.YplusX) && eqlimbs(v.YminusX, b.YminusX) && eqlimbs(v.T2d, b.T2d)
+
+//@ func (*projCached).CondNeg(v, cond)
+//@   mode ring
+//@   requires [cond] cond == 0 || cond == 1
+//@   requires [inv] inv(v.YplusX) && inv(v.YminusX) && inv(v.Z) && inv(v.T2d)
+//@   casesplit cond in 0..2
+//@   assigns *v
+//@   ensures [receiver] result == v
+//@   ensures [inv] inv(v.YplusX) && inv(v.YminusX) && inv(v.Z) && inv(v.T2d)
+//@   ensures [one] cond == 1 ==> eqlimbs(v.YplusX, old(v).YminusX) && eqlimbs(v.YminusX, old(v).YplusX) && cong(lv(v.T2d), 0 - lv(old(v).T2d), P)
+//@   ensures [zero] cond == 0 ==> eqlimbs(v.YplusX, old(v).YplusX) && eqlimbs(v.YminusX, old(v).YminusX) && eqlimbs(v.T2d, old(v).T2d)
+//@   ensures [Z] eqlimbs(v.Z, old(v).Z)
+
+//@ func (*affineCached).CondNeg(v, cond)
+//@   mode ring
+//@   requires [cond] cond == 0 || cond == 1
+//@   requires [inv] inv(v.YplusX) && inv(v.YminusX) && inv(v.T2d)
+//@   casesplit cond in 0..2
+//@   assigns *v
+//@   ensures [receiver] result == v
+//@   ensures [inv] inv(v.YplusX) && inv(v.YminusX) && inv(v.T2d)
+//@   ensures [one] cond == 1 ==> eqlimbs(v.YplusX, old(v).YminusX) && eqlimbs(v.YminusX, old(v).YplusX) && cong(lv(v.T2d), 0 - lv(old(v).T2d), P)
+//@   ensures [zero] cond == 0 ==> eqlimbs(v.YplusX, old(v).YplusX) && eqlimbs(v.YminusX, old(v).YminusX) && eqlimbs(v.T2d, old(v).T2d)
+
+// ---------------------------------------------------------------- encoding (property C05, C04)
+
+//@ func copyFieldElement(buf, v)
+//@   mode ring
+//@   requires [inv] inv(v)
+//@   assigns *buf
+//@   ensures [slice] result == sliceof(buf, 0, 32)
+//@   ensures [value] le(buf, 32) == lv(v) % P
+
+// affine coordinates of a valid point, as canonical integers in [0,P)
+//@ define affx(p) = (lv(p.x) * finv(lv(p.z))) % P
+//@ define affy(p) = (lv(p.y) * finv(lv(p.z))) % P
+
+//@ func (*Point).bytes(v, buf)
+//@   mode ring
+//@   requires [wf] wf(v)
+//@   panics !init(v)
+//@   assigns *buf
+//@   ensures [slice] result == sliceof(buf, 0, 32)
+//@   ensures [value] le(buf, 32) == affy(v) + 2^255 * (affx(v) % 2)
+
+//@ func (*Point).Bytes(v)
+//@   mode ring
+//@   requires [wf] wf(v)
+//@   panics !init(v)
+//@   assigns nothing
+//@   ensures [fresh] fresh(result)
+//@   ensures [len] len(result) == 32
+//@   ensures [value] le(result, 32) == affy(v) + 2^255 * (affx(v) % 2)
+
+// ---------------------------------------------------------------- extended coordinates (property C13)
+
+//@ define curveeq(X, Y, Z, T) = cong(lv(Y)*lv(Y) - lv(X)*lv(X), lv(Z)*lv(Z) + lv(d)*lv(T)*lv(T), P)
+//@ define txyeq(X, Y, Z, T) = cong(lv(X)*lv(Y), lv(Z)*lv(T), P)
+
+//@ func isOnCurve(X, Y, Z, T)
+//@   mode ring
+//@   requires [inv] inv(X) && inv(Y) && inv(Z) && inv(T)
+//@   assigns nothing
+//@   ensures [iff] result <==> (!cong(lv(Z), 0, P) && curveeq(X, Y, Z, T) && txyeq(X, Y, Z, T))
+
+//@ func (*Point).SetExtendedCoordinates(v, X, Y, Z, T)
+//@   mode ring
+//@   requires [inv] inv(X) && inv(Y) && inv(Z) && inv(T)
+//@   use validinit(v)
+//@   assigns *v
+//@   ensures [accept-iff] isnil(result1) <==> (!cong(lv(Z), 0, P) && curveeq(X, Y, Z, T) && txyeq(X, Y, Z, T))
+//@   ensures [ok] isnil(result1) ==> result0 == v && elems(v) && cong(lv(v.x), lv(X), P) && cong(lv(v.y), lv(Y), P) && cong(lv(v.z), lv(Z), P) && cong(lv(v.t), lv(T), P)
+//@   ensures [valid] isnil(result1) ==> validc(v) && init(v)
+//@   ensures [atomic] !isnil(result1) ==> isnil(result0) && unchanged(*v)
+
+//@ func (*Point).extendedCoordinates(v, e)
+//@   mode ring
+//@   requires [wf] wf(v)
+//@   panics !init(v)
+//@   assigns *e
+//@   ensures [ptrs] result0 == e[0] && result1 == e[1] && result2 == e[2] && result3 == e[3]
+//@   ensures [copy] eqlimbs(e[0], v.x) && eqlimbs(e[1], v.y) && eqlimbs(e[2], v.z) && eqlimbs(e[3], v.t)
+
+//@ func (*Point).ExtendedCoordinates(v)
+//@   mode ring
+//@   requires [wf] wf(v)
+//@   panics !init(v)
+//@   assigns nothing
+//@   ensures [fresh] fresh(result0) && fresh(result1) && fresh(result2) && fresh(result3)
+//@   ensures [distinct] result0 != result1 && result0 != result2 && result0 != result3 && result1 != result2 && result1 != result3 && result2 != result3
+//@   ensures [copy] eqlimbs(result0, v.x) && eqlimbs(result1, v.y) && eqlimbs(result2, v.z) && eqlimbs(result3, v.t)
+
+// ---------------------------------------------------------------- Montgomery u-coordinate (property C17)
+
+//@ define montu(p) = ((1 + lv(p.y) * finv(lv(p.z))) * finv(1 - lv(p.y) * finv(lv(p.z)))) % P
+
+//@ func (*Point).bytesMontgomery(v, buf)
+//@   mode ring
+//@   requires [wf] wf(v)
+//@   panics !init(v)
+//@   assigns *buf
+//@   ensures [slice] result == sliceof(buf, 0, 32)
+//@   ensures [value] le(buf, 32) == montu(v)
+
+//@ func (*Point).BytesMontgomery(v)
+//@   mode ring
+//@   requires [wf] wf(v)
+//@   panics !init(v)
+//@   assigns nothing
+//@   ensures [fresh] fresh(result)
+//@   ensures [len] len(result) == 32
+//@   ensures [value] le(result, 32) == montu(v)
+
+
+// ---------------------------------------------------------------- cofactor multiplication (validity; the value 8*P is tier G)
+
+//@ func (*Point).MultByCofactor(v, p)
+//@   mode ring
+//@   requires [wf] wf(p)
+//@   use validinit(v)
+//@   panics !init(p)
+//@   assigns *v
+//@   ensures [receiver] result == v
+//@   ensures [elems] elems(v)
+//@   ensures [valid] validc(v)
+//@   ensures [init] init(v)
+
+// ---------------------------------------------------------------- decoding (property C04)
+
+//@ func (*Point).SetBytes(v, x)
+//@   mode ring
+//@   casesplit len(x) == 32
+//@   use validinit(v)
+//@   assigns *v
+//@   ensures [badlen] len(x) != 32 ==> isnil(result0) && !isnil(result1) && unchanged(*v)
+//@   ensures [atomic] !isnil(result1) ==> isnil(result0) && unchanged(*v)
+//@   ensures [ok] isnil(result1) ==> result0 == v && elems(v)
+//@   ensures [y] isnil(result1) ==> lv(v.y) == le(x, 32) % 2^255
+//@   ensures [z] isnil(result1) ==> cong(lv(v.z), 1, P)
+//@   ensures [valid] isnil(result1) ==> validc(v)
+//@   ensures [init] isnil(result1) ==> init(v)
+//@   ensures [sign] isnil(result1) ==> (cong(lv(v.x), 0, P) || (lv(v.x) % P) % 2 == x[31] / 128)
+// a rejected 32-byte input carries a certificate that y is not on the curve: with u = y^2-1, w = d*y^2+1
+// (w != 0 for every y because -1/d is a non-square, M3) the code has found r with w*r^2 = sqrt(-1)*u, u != 0,
+// and sqrt(-1) is a non-square (M6), so u/w is not a square.
+//@   ensuresbody [reject] (len(x) == 32 && !isnil(result1) && !cong(lv(vv), 0, P)) ==> (!cong(lv(u), 0, P) && cong(lv(vv) * lv(xx) * lv(xx), lv(sqrtM1) * lv(u), P))
+//@   ensuresbody [reject-w] (len(x) == 32 && !isnil(result1)) ==> cong(lv(vv), lv(d) * lv(y) * lv(y) + 1, P) && cong(lv(u), lv(y) * lv(y) - 1, P)
